@@ -182,8 +182,81 @@ def stepSeq (hdr ops : String) : String :=
     | _, _, _, _ => "bad-op"
   | _ => "bad-op"
 
+/- hist|op;…   op = e <slot> <kind> <data> <pw> <rnd> <b|f> | d <slot> <pw> <b|f>
+   kind = m | k:<scheme> | f:<scheme>.  The ideal log holds every encryption of the line; each op is
+   the per-call pure function; the b|f token (reused buffer / fresh slice) is irrelevant to the model. -/
+structure HSlot where
+  kind : String
+  scheme : Scheme
+  data : Bytes
+  pw : Bytes
+  ct : Bytes
+
+inductive HOp where
+  | e (slot : Nat) (kind : String) (scheme : Scheme) (data pw rnd : Bytes)
+  | d (slot : Nat) (pw : Bytes)
+
+def parseHOp (s : String) : Option HOp :=
+  match words s with
+  | ["e", i, kind, data, pw, rnd, _] =>
+    match i.toNat?, ofHex? data, ofHex? pw, ofHex? rnd with
+    | some i, some data, some pw, some rnd =>
+      if i > 3 then none else
+      match kind.splitOn ":" with
+      | ["m"] => some (.e i "m" .ed25519 data pw rnd)
+      | ["k", sc] => (parseScheme sc).map (fun sc => .e i "k" sc data pw rnd)
+      | ["f", sc] => (parseScheme sc).map (fun sc => .e i "f" sc data pw rnd)
+      | _ => none
+    | _, _, _, _ => none
+  | ["d", i, pw, _] =>
+    match i.toNat?, ofHex? pw with
+    | some i, some pw => if i > 3 then none else some (.d i pw)
+    | _, _ => none
+  | _ => none
+
+def hDec (C : Crypto) (sl : HSlot) (pw : Bytes) : String :=
+  if sl.kind = "m" then showB (decrypt C sl.ct pw) sl.data
+  else if sl.kind = "k" then showK (decryptPrivateKey C sl.ct pw sl.scheme.name) ⟨sl.scheme, sl.data⟩
+  else showK (readFromFileAndDecrypt C (.parsed ⟨sl.scheme.name, "pub", sl.ct⟩) pw) ⟨sl.scheme, sl.data⟩
+
+def hLog : List HOp → List Enc
+  | [] => []
+  | .e _ _ _ data pw rnd :: rest => ⟨pw, rnd.take nonceSize, data⟩ :: hLog rest
+  | .d _ _ :: rest => hLog rest
+
+def hRun (C : Crypto) : List HOp → List (Option HSlot) → List String → List String × List (Option HSlot)
+  | [], slots, acc => (acc.reverse, slots)
+  | .e i kind sc data pw rnd :: rest, slots, acc =>
+    let keyOk : Bool := kind == "m" || (match newPrivateKey sc data with | .ok _ => true | _ => false)
+    if !keyOk then hRun C rest slots ("kerr" :: acc)
+    else match encrypt C rnd data pw with
+      | .ok ct => hRun C rest (slots.set i (some ⟨kind, sc, data, pw, ct⟩)) (s!"ok {shape ct rnd}" :: acc)
+      | _ => hRun C rest slots ("eerr" :: acc)
+  | .d i pw :: rest, slots, acc =>
+    match slots.getD i none with
+    | some sl => hRun C rest slots (hDec C sl pw :: acc)
+    | none => hRun C rest slots ("none" :: acc)
+
+def otherPw (pw : Bytes) : Bytes :=
+  match pw.getLast? with
+  | none => [0]
+  | some b => pw.dropLast ++ [b ^^^ 1]
+
+def hFinal (C : Crypto) (slots : List (Option HSlot)) : List String :=
+  (slots.zipIdx).filterMap (fun (sl, i) =>
+    sl.map (fun sl => s!"s{i}:{hDec C sl sl.pw} {hDec C sl (otherPw sl.pw)}"))
+
+def stepHist (ops : String) : String :=
+  match (ops.splitOn ";").mapM parseHOp with
+  | some ops =>
+    let C := idealCrypto (hLog ops)
+    let r := hRun C ops [none, none, none, none] []
+    ";".intercalate r.1 ++ "|" ++ ",".intercalate (hFinal C r.2)
+  | none => "bad-op"
+
 def step (line : String) : String :=
   match line.splitOn "|" with
+  | ["hist", ops] => stepHist ops
   | [hdr, ops] => stepSeq hdr ops
   | _ =>
   match words line with
